@@ -1,4 +1,4 @@
-import BppProofs.Lemmas.NumDerivEntry
+import BppProofs.Lemmas.NumDerivReach
 /-!
 # C12 — numerical derivatives are transparent and exact on low-degree polynomials
 
@@ -243,5 +243,46 @@ example : ∃ (w : W ℝ) (f : List ℝ → ℝ) (e : Entry ℝ), Own w.fn ∧ w
      fn := { params := [⟨0, 0, 0, none⟩], fval := 0, log := [], kind := 0, en1 := false, en2 := false, pt1 := [], pt2 := [] } },
    fun l => l.sum, .setParameters [⟨0, 1, 0, none⟩],
    ⟨by simp [names], by intro p hp; simp at hp; subst hp; rfl⟩, by simp [Fn.OK, values], by simp [Entry.Nodup, names]⟩
+
+
+/-! ## 3. Every history; no probe outside the constraints reaches `f` -/
+
+/-- a sequence of entry-point calls, each returning or raising -/
+noncomputable def runCalls (f : List ℝ → ℝ) (w : W ℝ) : List (Entry ℝ) → W ℝ
+  | [] => w
+  | e :: es => runCalls f (w.call f e).1 es
+
+theorem runCalls_inv (f : List ℝ → ℝ) (ref : PList ℝ) : ∀ (es : List (Entry ℝ)) (w : W ℝ), Inv f ref w.fn →
+    Inv f ref (runCalls f w es).fn := by
+  intro es
+  induction es with
+  | nil => intro w h; exact h
+  | cons e es ih => intro w h; exact ih _ (h.call e).1
+
+/-- `probes_feasible`: whatever the scheme, the selection, the lists passed (duplicates, unknown
+names, precisions included) and whether calls return or raise, every point at which the objective
+is evaluated satisfies the constraints of the wrapped function's parameters — as the code behaves:
+the wrapped function checks a whole list before it moves, and the wrappers only reach it through
+its setters.  (`Fn.log` is the evaluation log the harness compares with the implementation's.) -/
+theorem probes_feasible (f : List ℝ → ℝ) (w : W ℝ) (es : List (Entry ℝ))
+    (hfeas : Feas w.fn.params) (hok : w.fn.OK f) (hlog : ∀ pt ∈ w.fn.log, PtOK w.fn.params pt) :
+    (∀ pt ∈ (runCalls f w es).fn.log, PtOK w.fn.params pt) ∧ Feas (runCalls f w es).fn.params := by
+  have h0 : Inv f w.fn.params w.fn := ⟨Skel.refl _, hok, hfeas, hlog⟩
+  have := runCalls_inv f w.fn.params es w h0
+  exact ⟨this.log, this.feas⟩
+
+/-- `transparent` holds after every history of calls (returning or raising): its hypotheses are
+invariants of the wrapper -/
+theorem transparent_history (f : List ℝ → ℝ) (w : W ℝ) (es : List (Entry ℝ)) (e : Entry ℝ)
+    (hown : Own w.fn) (hok : w.fn.OK f) (hfeas : Feas w.fn.params)
+    (hlog : ∀ pt ∈ w.fn.log, PtOK w.fn.params pt) (he : e.Nodup)
+    (hret : ((runCalls f w es).call f e).2.1 = none) :
+    ((runCalls f w es).call f e).1.fn.params = e.apply (runCalls f w es).fn.params ∧
+    ((runCalls f w es).call f e).1.value = f (values (e.apply (runCalls f w es).fn.params)) ∧
+    ((runCalls f w es).call f e).1.fn.fval = f (values (e.apply (runCalls f w es).fn.params)) := by
+  have h0 : Inv f w.fn.params w.fn := ⟨Skel.refl _, hok, hfeas, hlog⟩
+  have h1 := runCalls_inv f w.fn.params es w h0
+  obtain ⟨a, b, c, _, _⟩ := transparent f (runCalls f w es) e (h1.own hown.1 hown.2) h1.ok he hret
+  exact ⟨a, b, c⟩
 
 end Bpp.C12
